@@ -1,1 +1,333 @@
-/- C09: property theorems (not built yet). -/
+/-
+  C09 — A failed evaluation does not corrupt the model.
+
+  Model: Pycel/Model/Failure.lean (failure-aware engine on top of the C01 engine; iterative-mode pass `evalI`).
+  Lemmas: Pycel/Lemmas/Failure.lean.  Every theorem of the plain-mode part holds for EVERY workbook (any DAG in
+  topological presentation, ranges included), EVERY value type, EVERY formula semantics with failures `S : Sem α`
+  (deterministic exceptions of `S.f` = unknown function / library error on these arguments, transient faults
+  `S.fault i c` = a plugin raising on its c-th call, any number of captured messages, CSE flags), EVERY position of
+  the failing cell and EVERY history — by induction, never by sampling.  `D` is the error-message discipline of
+  `eval_func`; the theorems need it `Balanced` (the repaired code is, the pinned code is not: counterexamples below).
+-/
+import Pycel.Lemmas.Failure
+import Pycel.Lemmas.EngineInst
+namespace Pycel.Failure
+open Pycel.Engine
+
+variable {α : Type} {wb : Workbook} {S : Sem α} {D : Discipline}
+
+/-! ## the engine invariant survives a failed evaluation, the transient state is restored -/
+
+/- "A failed evaluation does not corrupt the model": after `evaluate(a)` — whether it returned or raised — the
+   engine invariant holds (cached ⇒ equals `denote`, cached ⇒ precedents cached, only values are stored), all
+   transient state (error-message list, array-context stack, graph_todos, range_todos) is back at its initial value,
+   no input changed and no cached value was lost or altered. -/
+theorem C09_inv (hwf : WF wb) (hs : SLocal wb S) (hD : Balanced D) {s : FState α} (hg : Good wb S s) (hc : Clean s)
+    (a : Nat) :
+    Inv wb (lift wb S) (evaluateX wb S D a s).2.core ∧ Good wb S (evaluateX wb S D a s).2 ∧
+    Clean (evaluateX wb S D a s).2 ∧ (evaluateX wb S D a s).2.core.inp = s.core.inp ∧
+    ∀ m, s.core.cache m ≠ none → (evaluateX wb S D a s).2.core.cache m = s.core.cache m := by
+  have e := evaluateX_spec (D := D) hwf hs hD (fun _ => False) (fun _ h => h.elim) (fun _ h => h.elim) hg hc a
+  exact ⟨e.good.inv, e.good, e.clean, e.inp, e.keeps⟩
+
+/- the same along every history of evaluate / set_value / overwrite-a-formula-cell operations, from any consistent
+   model (`GoodM`: well-formed workbook, local formulas, `Good`, `Clean`) -/
+theorem C09_inv_history (hD : Balanced D) (eqv : R α → R α → Bool) (hsound : ∀ a b, eqv a b = true → a = b)
+    {m₀ : Model α} (h₀ : GoodM S m₀) (h : List (XOp α)) : GoodM S (runM S D eqv m₀ h) :=
+  runM_good hD eqv hsound h h₀
+
+/- a fresh model is consistent -/
+theorem C09_init (hwf : WF wb) (hs : SLocal wb S) (inp : Nat → α) : GoodM S ⟨wb, initX inp⟩ :=
+  ⟨hwf, hs, (initX_good wb S inp).1, (initX_good wb S inp).2⟩
+
+/-! ## never a stale value, never a bare internal exception -/
+
+/- "(never a stale value, never a bare internal exception)": whatever happened before, an `evaluate` that returns a
+   value returns the from-scratch value at the current inputs, and one that raises raises UnknownFunction /
+   FormulaEvalError (or the RecursionError `eval_func` re-raises, if something raised Python's RecursionError) —
+   never the AssertionError of the message-list check.  Transient faults (a plugin raising on its k-th call) included. -/
+theorem C09_never_stale (hwf : WF wb) (hs : SLocal wb S) (hD : Balanced D) {s : FState α} (hg : Good wb S s)
+    (hc : Clean s) (a : Nat) (ha : a < wb.n) :
+    (∀ v, (evaluateX wb S D a s).1 = .ok v → denote wb (lift wb S) s.core.inp a = .ok v) ∧
+    (∀ e, (evaluateX wb S D a s).1 = .error e → e ≠ .assertion ∧ (NoRec S → e.pycel = true)) := by
+  have e := evaluateX_spec (D := D) hwf hs hD (fun _ => False) (fun _ h => h.elim) (fun _ h => h.elim) hg hc a
+  refine ⟨e.sound ha, fun x hx => ?_⟩
+  have := e.cls ha x hx
+  refine ⟨this.1, fun hn => ?_⟩
+  have h2 := this.2 hn
+  cases x <;> simp_all [Fail.pycel]
+
+/-! ## retry -/
+
+/- "retrying it or a dependant fails again with one of pycel's own errors": a cell whose from-scratch evaluation
+   fails at the current inputs (the failing cell itself or anything that depends on it, see `C09_dependant_fails`)
+   fails on EVERY evaluate in every consistent state — after the first failure, after evaluating other cells, after
+   unrelated writes — with a pycel error class. -/
+theorem C09_retry (hwf : WF wb) (hs : SLocal wb S) (hD : Balanced D) {s : FState α} (hg : Good wb S s)
+    (hc : Clean s) (a : Nat) (ha : a < wb.n) {e₀ : Fail} (hfail : denote wb (lift wb S) s.core.inp a = .error e₀) :
+    ∃ e, (evaluateX wb S D a s).1 = .error e ∧ e ≠ .assertion ∧ (NoRec S → e.pycel = true) := by
+  have ns := C09_never_stale (D := D) hwf hs hD hg hc a ha
+  cases hr : (evaluateX wb S D a s).1 with
+  | ok v => have := ns.1 v hr; rw [hfail] at this; cases this
+  | error e => exact ⟨e, rfl, ns.2 e hr⟩
+
+/-- `a` depends on `b` (reflexive, transitive closure of the declared precedents) -/
+inductive DependsOn (wb : Workbook) : Nat → Nat → Prop where
+  | refl (a : Nat) : DependsOn wb a a
+  | step {a j b : Nat} : j ∈ wb.deps a → DependsOn wb j b → DependsOn wb a b
+
+/- "wherever in the dependency chain the failure occurs": the failure of a cell is the failure of every dependant -/
+theorem C09_dependant_fails (hwf : WF wb) (hs : SLocal wb S) (inp : Nat → R α) {a b : Nat} (hdep : DependsOn wb a b)
+    {e₀ : Fail} (hb : denote wb (lift wb S) inp b = .error e₀) : ∃ e, denote wb (lift wb S) inp a = .error e := by
+  induction hdep with
+  | refl a => exact ⟨e₀, hb⟩
+  | @step a j b hj _ ih =>
+    obtain ⟨e, he⟩ := ih hb
+    cases ha : denote wb (lift wb S) inp a with
+    | error e' => exact ⟨e', rfl⟩
+    | ok w =>
+      obtain ⟨w', hw'⟩ := denote_ok_deps hwf hs inp ha j hj
+      rw [he] at hw'; cases hw'
+
+/- retry right after the failure, without transient faults in play: an evaluate that raised raises again (the failing
+   cell or a dependant), a pycel error again -/
+theorem C09_retry_after_failure (hwf : WF wb) (hs : SLocal wb S) (hD : Balanced D)
+    (hq : ∀ m c, S.fault m c = none) {s : FState α} (hg : Good wb S s) (hc : Clean s) (a : Nat) (ha : a < wb.n)
+    {e₁ : Fail} (h1 : (evaluateX wb S D a s).1 = .error e₁) :
+    ∃ e, (evaluateX wb S D a (evaluateX wb S D a s).2).1 = .error e ∧ e ≠ .assertion ∧
+      (NoRec S → e.pycel = true) := by
+  have e := evaluateX_spec (D := D) hwf hs hD (fun _ => True) (fun _ _ _ _ => trivial) (fun m _ c => hq m c) hg hc a
+  cases hd : denote wb (lift wb S) s.core.inp a with
+  | ok v => have := e.exact ha trivial v hd; rw [h1] at this; cases this
+  | error e₀ =>
+    exact C09_retry hwf hs hD e.good e.clean a ha (by rw [e.inp]; exact hd)
+
+/-! ## unrelated cells -/
+
+/- "every cell that does not depend on the failing one still evaluates to its correct value": `P` = any set of cells
+   closed under precedents (e.g. the cone of `a`) on which no transient fault fires; if `a ∈ P` has a from-scratch
+   value, evaluate returns exactly it — in every consistent state, in particular after any number of failed
+   evaluations of other cells. -/
+theorem C09_unrelated (hwf : WF wb) (hs : SLocal wb S) (hD : Balanced D) (P : Nat → Prop)
+    (hP : ∀ m, P m → ∀ j, j ∈ wb.deps m → P j) (hq : QuietOn S P) {s : FState α} (hg : Good wb S s) (hc : Clean s)
+    (a : Nat) (ha : a < wb.n) (hPa : P a) {v : α} (hv : denote wb (lift wb S) s.core.inp a = .ok v) :
+    (evaluateX wb S D a s).1 = .ok v :=
+  (evaluateX_spec (D := D) hwf hs hD P hP hq hg hc a).exact ha hPa v hv
+
+/-- no formula of `P` can raise: neither deterministically nor transiently -/
+def FailFree (S : Sem α) (P : Nat → Prop) : Prop :=
+  ∀ m, P m → (∀ env, ∃ v, S.f m env = .ok v) ∧ ∀ c, S.fault m c = none
+
+/- a cell whose cone contains no cell that can fail has a from-scratch value … -/
+theorem C09_cone_has_value (hwf : WF wb) (hs : SLocal wb S) (P : Nat → Prop)
+    (hP : ∀ m, P m → ∀ j, j ∈ wb.deps m → P j) (hff : FailFree S P) (inp : Nat → R α)
+    (hin : ∀ m, ∃ a, inp m = .ok a) : ∀ m, P m → ∃ v, denote wb (lift wb S) inp m = .ok v := by
+  intro m
+  induction m using Nat.strongRecOn with
+  | _ m ih =>
+    intro hm
+    by_cases hk : wb.kind m = .input
+    · rw [denote_input _ hk]; exact hin m
+    · rw [denote_node hwf (lift_local hs) _ hk]
+      have hnone := firstFail_none (fun j => denote wb (lift wb S) inp j) (wb.deps m)
+        (fun j hj => ih j (hwf.lt m j hj) (hP m hm j hj))
+      obtain ⟨v, hv⟩ := (hff m hm).1 (fun j => unwrap S.dflt (denote wb (lift wb S) inp j))
+      cases hk' : wb.kind m with
+      | input => exact absurd hk' hk
+      | range => exact ⟨v, by simp only [lift, hk', hnone, applyF, hv]⟩
+      | formula => exact ⟨v, by simp only [lift, hk', hnone, applyF, hv]⟩
+
+/- … and so evaluates to it, whatever failed elsewhere before -/
+theorem C09_unrelated_cone (hwf : WF wb) (hs : SLocal wb S) (hD : Balanced D) (P : Nat → Prop)
+    (hP : ∀ m, P m → ∀ j, j ∈ wb.deps m → P j) (hff : FailFree S P) {s : FState α} (hg : Good wb S s)
+    (hc : Clean s) (a : Nat) (ha : a < wb.n) (hPa : P a) :
+    ∃ v, (evaluateX wb S D a s).1 = .ok v ∧ denote wb (lift wb S) s.core.inp a = .ok v := by
+  obtain ⟨v, hv⟩ := C09_cone_has_value hwf hs P hP hff s.core.inp hg.inpOk a hPa
+  exact ⟨v, C09_unrelated hwf hs hD P hP (fun m hm => (hff m hm).2) hg hc a ha hPa hv, hv⟩
+
+/-! ## repair -/
+
+/- "once the failing cell is overwritten with a constant": `set_value` over formula cell `i` (in the cell map) yields
+   a consistent model of the REPAIRED workbook (`i` is a value cell) whose inputs are the old ones with `v` at `i`;
+   the transient state is untouched. -/
+theorem C09_repair (hwf : WF wb) (hs : SLocal wb S) (eqv : R α → R α → Bool)
+    (hsound : ∀ a b, eqv a b = true → a = b) {s : FState α} (hg : Good wb S s) (hc : Clean s) (i : Nat) (v : α)
+    (hi : i < wb.n) (hb : s.core.built i = true) :
+    GoodM S ⟨repairWb wb i, repair wb S eqv i v s⟩ ∧
+    (repair wb S eqv i v s).core.inp = update s.core.inp i (.ok v) := by
+  have r := repair_good hwf hs eqv hsound hg i v hi hb
+  exact ⟨⟨repairWb_wf hwf i, repairWb_local hs i, r.1, by rw [r.2.2]; exact hc⟩, r.2.1⟩
+
+/- "its dependants evaluate as in a fresh model": evaluating any cell `d` of the repaired model gives what a FRESH
+   model of the repaired workbook (same inputs, `v` in cell `i`, nothing evaluated yet) gives — the same value, and
+   an exception exactly when the fresh model raises one (another cell may still be broken). -/
+theorem C09_repair_fresh (hwf : WF wb) (hs : SLocal wb S) (hD : Balanced D) (eqv : R α → R α → Bool)
+    (hsound : ∀ a b, eqv a b = true → a = b) (hq : ∀ m c, S.fault m c = none) {s : FState α} (hg : Good wb S s)
+    (hc : Clean s) (i : Nat) (v : α) (hi : i < wb.n) (hb : s.core.built i = true) (inp' : Nat → α)
+    (hinp' : ∀ k, update s.core.inp i (.ok v) k = .ok (inp' k)) (d : Nat) (hd : d < wb.n) :
+    (∀ w, (evaluateX (repairWb wb i) S D d (initX inp')).1 = .ok w →
+      (evaluateX (repairWb wb i) S D d (repair wb S eqv i v s)).1 = .ok w) ∧
+    (∀ e, (evaluateX (repairWb wb i) S D d (initX inp')).1 = .error e →
+      ∃ e', (evaluateX (repairWb wb i) S D d (repair wb S eqv i v s)).1 = .error e' ∧ e' ≠ .assertion ∧
+        (NoRec S → e'.pycel = true)) := by
+  obtain ⟨gm, hinp⟩ := C09_repair hwf hs eqv hsound hg hc i v hi hb
+  have hT : ∀ m, (fun _ : Nat => True) m → ∀ j, j ∈ (repairWb wb i).deps m → (fun _ : Nat => True) j :=
+    fun _ _ _ _ => trivial
+  have hQ : QuietOn S (fun _ => True) := fun m _ c => hq m c
+  have e1 := evaluateX_spec (D := D) gm.wf gm.loc hD (fun _ => True) hT hQ gm.good gm.clean d
+  have f0 := initX_good (repairWb wb i) S inp'
+  have e2 := evaluateX_spec (D := D) gm.wf gm.loc hD (fun _ => True) hT hQ f0.1 f0.2 d
+  have hsame : (repair wb S eqv i v s).core.inp = (initX inp').core.inp := by
+    rw [hinp]; funext k; exact hinp' k
+  have hd' : d < (repairWb wb i).n := hd
+  refine ⟨fun w hw => ?_, fun e he => ?_⟩
+  · have := e2.sound hd' w hw
+    exact e1.exact hd' trivial w (by rw [hsame]; exact this)
+  · cases hr : (evaluateX (repairWb wb i) S D d (repair wb S eqv i v s)).1 with
+    | ok w =>
+      have := e1.sound hd' w hr
+      have := e2.exact hd' trivial w (by rw [← hsame]; exact this)
+      rw [he] at this; cases this
+    | error e' =>
+      exact ⟨e', rfl, (C09_never_stale (D := D) gm.wf gm.loc hD gm.good gm.clean d hd').2 e' hr⟩
+
+/-! ## the error-message discipline: the repaired code satisfies the hypothesis, the pinned code does not -/
+
+theorem C09_repaired_balanced : Balanced Discipline.repaired := ⟨fun _ _ _ => rfl, fun _ _ => rfl⟩
+
+theorem C09_asWritten_not_balanced : ¬ Balanced Discipline.asWritten := by
+  intro h
+  have := h.1 0 1 .formulaEval
+  simp [Discipline.asWritten] at this
+
+section Inst
+open Pycel Pycel.EngineInst Pycel.Failure.Inst
+
+/-- A1 = 1, B1 = FOO(A1), C1 = ("a"+1)+B1 (one message captured before B1 is read), D1 = A1+A1 -/
+def demo : List FSpec :=
+  [⟨.inp (.num 1), .ok, 0, 0, false⟩, ⟨.fml (.ref 0), .unknown, 0, 0, false⟩, ⟨.fml (.add 1 1), .ok, 1, 0, false⟩,
+   ⟨.fml (.add 0 0), .ok, 0, 0, false⟩]
+
+def demoInit : FState EV := initX (inputsOf (specsOf demo))
+
+def isErr (e : Fail) (r : R EV) : Bool :=
+  match r with
+  | .error x => decide (x = e)
+  | .ok _ => false
+
+def isVal (v : Val) (r : R EV) : Bool :=
+  match r with
+  | .ok (.sc w) => decide (w = v)
+  | _ => false
+
+/- "an outer captured #VALUE! plus an inner failure surfaces as a bare AssertionError": with the discipline of the
+   pinned code evaluate(C1) raises the bare assertion, the message list is left with three entries, and from then on
+   every failing evaluate (here B1, whose own failure is an UnknownFunction) asserts as well. -/
+theorem C09_assert_counterexample :
+    let r := evaluateX (wbOf demo) (semOf demo) .asWritten 2 demoInit
+    isErr .assertion r.1 = true ∧ r.2.errs = 3 ∧
+    isErr .assertion (evaluateX (wbOf demo) (semOf demo) .asWritten 1 r.2).1 = true := by
+  decide +kernel
+
+/- the same history under the repaired discipline: FormulaEvalError, clean state, B1 retried gives UnknownFunction,
+   the unrelated D1 gives 2, and after overwriting B1 with 5 the dependant C1 evaluates (to #VALUE!, as fresh). -/
+theorem C09_demo_repaired :
+    let r := evaluateX (wbOf demo) (semOf demo) .repaired 2 demoInit
+    isErr .formulaEval r.1 = true ∧ r.2.errs = 0 ∧ r.2.ctx = [] ∧
+    isErr .unknownFunction (evaluateX (wbOf demo) (semOf demo) .repaired 1 r.2).1 = true ∧
+    isVal (.num 2) (evaluateX (wbOf demo) (semOf demo) .repaired 3 r.2).1 = true ∧
+    isVal (.err .value)
+      (evaluateX (repairWb (wbOf demo) 1) (semOf demo) .repaired 2
+        (repair (wbOf demo) (semOf demo) eqvR 1 (.sc (.num 5)) r.2)).1 = true := by
+  decide +kernel
+
+/-! ### non-vacuity: the hypotheses hold for the driver's instance -/
+
+theorem semOf_local (fs : List FSpec) : SLocal (wbOf fs) (semOf fs) := by
+  intro i e e' _ h
+  have hl := sem_local (specsOf fs) i e e' h
+  have hget : (specsOf fs)[i]? = (fs[i]?).map (·.spec) := by simp [specsOf]
+  simp only [semOf, valueSem]
+  cases hi : fs[i]? with
+  | none => rfl
+  | some x =>
+    simp only
+    have hdeps : (wbOf fs).deps i = x.spec.deps := by simp [wbOf, mkWb, hget, hi]
+    cases x.mode <;> simp only
+    all_goals
+      split
+      · split
+        · rename_i r hsp
+          rw [hdeps, hsp] at h
+          rw [h r (by simp [Spec.deps, Fml.refs])]
+        · rw [hl]
+      · split
+        · split <;> first | rfl | rw [hl]
+        · rw [hl]
+
+theorem eqvR_sound : ∀ a b : R EV, eqvR a b = true → a = b := by
+  intro a b h
+  cases a <;> cases b <;> simp_all [eqvR, typedEq]
+
+example : WF (wbOf demo) := wf_of_check (specsOf demo) (by decide)
+example : GoodM (semOf demo) ⟨wbOf demo, demoInit⟩ :=
+  C09_init (wf_of_check (specsOf demo) (by decide)) (semOf_local demo) _
+example : ∃ e, denote (wbOf demo) (lift (wbOf demo) (semOf demo)) demoInit.core.inp 2 = .error e := by
+  have h1 : isErr .unknownFunction (denote (wbOf demo) (lift (wbOf demo) (semOf demo)) demoInit.core.inp 1) = true := by
+    decide +kernel
+  cases hd : denote (wbOf demo) (lift (wbOf demo) (semOf demo)) demoInit.core.inp 1 with
+  | ok v => simp [isErr, hd] at h1
+  | error x =>
+    exact C09_dependant_fails (wf_of_check (specsOf demo) (by decide)) (semOf_local demo) _
+      (.step (j := 1) (by decide) (.refl 1)) hd
+
+end Inst
+
+/-! ## iterative mode (`cycles=True`) -/
+
+/- "This holds in plain and iterative mode": one pass of the iterative evaluator over ANY dependency graph (cycles
+   included), any fuel, any cell, any state — failing or not — leaves every work-in-progress flag, the message list
+   and the array-context stack exactly as it found them (repaired `_eval`: the `except` clears the flag). -/
+theorem C09_iter_restored (hD : Balanced D) (fuel i : Nat) (s : IState α) :
+    (∀ m, ((evalI wb S D true fuel i s).2.cells m).wip = (s.cells m).wip) ∧
+    (evalI wb S D true fuel i s).2.errs = s.errs ∧ (evalI wb S D true fuel i s).2.ctx = s.ctx :=
+  let h := evalI_restores (wb := wb) (S := S) hD fuel i s
+  ⟨h.wip, h.errs, h.ctx⟩
+
+/- retry in iterative mode, proved for the failing cell itself: a cell whose function raises on every call (unknown
+   function, always-raising plugin) raises again on every later `evaluate` of it, after any evaluate of any cell
+   (failed or not) from a state with no flag set — never the stale previous value.
+   PARTIAL: the full statement also covers every dependant of the failing cell; in a cyclic graph a dependant can be
+   computed without descending into the failing cell when a cell on the evaluation stack shields it, so the general
+   argument needs a path invariant that is not carried here; dependants are covered by the correspondence run. -/
+theorem C09_iter_retry_partial (hD : Balanced D) {b : Nat} (hk : wb.kind b = .formula)
+    (hbr : ∀ env, ∃ x, S.f b env = .error x) (s : IState α) (hw : ∀ m, (s.cells m).wip = false) (a : Nat) :
+    ∃ e, (evaluateI wb S D true b (evaluateI wb S D true a s).2).1 = .error e := by
+  have h := evalI_restores (wb := wb) (S := S) hD (wb.n + 1) a { s with computed := fun _ => false }
+  exact evalI_broken true hk hbr _ _ (by rw [show ((evaluateI wb S D true a s).2.cells b).wip = _ from h.wip b]; exact hw b)
+    rfl
+
+section InstI
+open Pycel Pycel.EngineInst Pycel.Failure.Inst
+
+/- the pinned `_eval` (no `except`): after the failed evaluate(C1) of A1 = 1, B1 = FOO(A1), C1 = ("a"+1)+B1 both
+   cells on the stack stay work-in-progress and the retry returns the previous value instead of raising. -/
+theorem C09_iter_wip_counterexample :
+    let s0 : IState EV := initI (inputsOf (specsOf demo))
+    let r := evaluateI (wbOf demo) (semOf demo) .repaired false 2 s0
+    isErr .formulaEval r.1 = true ∧ (r.2.cells 1).wip = true ∧ (r.2.cells 2).wip = true ∧
+    isErr .formulaEval (evaluateI (wbOf demo) (semOf demo) .repaired false 2 r.2).1 = false := by
+  decide +kernel
+
+/- the repaired `_eval` on the same history: flags cleared, the retry raises again, the unrelated D1 evaluates -/
+theorem C09_iter_demo_repaired :
+    let s0 : IState EV := initI (inputsOf (specsOf demo))
+    let r := evaluateI (wbOf demo) (semOf demo) .repaired true 2 s0
+    isErr .formulaEval r.1 = true ∧ (r.2.cells 1).wip = false ∧ (r.2.cells 2).wip = false ∧
+    isErr .formulaEval (evaluateI (wbOf demo) (semOf demo) .repaired true 2 r.2).1 = true ∧
+    isVal (.num 2) (evaluateI (wbOf demo) (semOf demo) .repaired true 3 r.2).1 = true := by
+  decide +kernel
+
+end InstI
+
+end Pycel.Failure
